@@ -183,8 +183,49 @@ def mk_state_level(kind, rep, tname, cname, shape):
     return h
 
 
+def mk_inplace_hash(kind, rep):
+    """'equal ones hash alike' also for a state whose door was opened IN PLACE after the state had been hashed (the way the
+    dynamics change doors) compared with an independently built equal state"""
+    from gym_gridverse.grid_object import Door, Floor, Key
+
+    def h(sx):
+        reset_gv_debug(False)
+        space = make_space(kind, 'keydoor', 'yellow', Shape(2, 2) if kind == 'state' else Shape(1, 3))
+        H, W = space.grid_shape.height, space.grid_shape.width
+        dy = int(sx.int('dy', 0, H - 1))
+        dx = int(sx.int('dx', 0, W - 1))
+        status = sx.choice('status', [Door.Status.CLOSED, Door.Status.LOCKED])
+        held_key = sx.choice('held_key', [False, True])
+
+        def build(st):
+            rows = [[Floor() for _ in range(W)] for _ in range(H)]
+            rows[dy][dx] = Door(st, Color.YELLOW)
+            agent = Agent(Position(0, 0) if kind == 'state' else space.agent_position, Orientation.F, Key(Color.YELLOW) if held_key else None)
+            return (State if kind == 'state' else Observation)(Grid(rows), agent)
+
+        x1 = build(status)
+        asked = sx.choice('asked', ['hash', 'dict', 'nothing'])
+        if asked == 'hash':
+            hash(x1), hash(x1.grid[dy, dx])
+        elif asked == 'dict':
+            {x1: 0, x1.grid[dy, dx]: 1}
+        x2 = fast_copy(x1)
+        x2.grid[dy, dx].state = Door.Status.OPEN   # what actuate_door does
+        x3 = build(Door.Status.OPEN)
+        r, o2 = convert_whole(kind, rep, space, x2)
+        _, o3 = convert_whole(kind, rep, space, x3)
+        sx.cover('in-place-' + asked)
+        sx.check(x2 == x3 and reps_equal(o2, o3), 'equal-states-equal-representations')
+        sx.check(hash(x2) == hash(x3) and hash(x2.grid) == hash(x3.grid) and hash(x2.grid[dy, dx]) == hash(x3.grid[dy, dx]), 'equal-states-hash-alike-after-an-in-place-change')
+        sx.check(not reps_equal(o2, convert_whole(kind, rep, space, x1)[1]) and x1 != x2, 'the-change-shows-in-the-representation')
+    return h
+
+
 def obligations(tier):
     obs = _obligations(tier)
+    for kind in ('state', 'observation'):
+        for rep in REPS:
+            obs.append(Obligation(f'inplace-hash-{kind}-{rep}', mk_inplace_hash(kind, rep), dict(kind=kind, representation=rep)))
     for o in obs:  # a sample of the symbolically decided assertions is re-decided by the cvc5 binary
         if o.name.startswith(('pairs-',)):
             o.cross_check = 6 if tier == 'quick' else 60
